@@ -417,6 +417,8 @@ class SInt(_Num):
 
 def sym_abs(x):
     if isinstance(x, SReal):
+        if _CTX is not None and _CTX.fork_minmax:
+            return x if x >= 0 else -x
         return SReal(simp(z3.If(x.t >= 0, x.t, -x.t)))
     if isinstance(x, SInt):
         return x.__abs__()
@@ -690,7 +692,7 @@ class Ctx(object):
     """One path."""
 
     def __init__(self, prefix, stats, feas_timeout_ms=10000, fork_minmax=False,
-                 logic=None, incr_timeout_ms=500):
+                 logic=None, incr_timeout_ms=500, formal_cache=False):
         self.prefix = prefix
         self.stats = stats
         self.decisions = []
@@ -709,6 +711,8 @@ class Ctx(object):
         self.notes = []
         self.root_candidates = []
         self.root_defs = []
+        self.formal_cache = formal_cache
+        self.sign_cache = []      # (difference term, allowed signs)
         self.roots_used = 0
         self.formal = 0
 
@@ -769,25 +773,85 @@ class Ctx(object):
             v = d[-1]
             self.decisions.append(d)
             self.add(cond if v else z3.Not(cond))
+            if self.formal_cache:
+                self._remember(cond, v)
             return v
-        self.stats.feas_checks += 1
-        rt = self._check(cond)
-        if rt == "unsat":
-            v = False
+        forced = self._formal_decide(cond) if self.formal_cache else None
+        if forced is not None:
+            v = forced
+            self.formal += 1
         else:
-            if rt == "unknown":
-                self.stats.feas_unknown += 1
             self.stats.feas_checks += 1
-            rf = self._check(z3.Not(cond))
-            if rf == "unknown":
-                self.stats.feas_unknown += 1
-            if rf != "unsat":
-                self.alternatives.append(
-                    tuple(self.decisions) + (("b", False),))
-            v = True
+            rt = self._check(cond)
+            if rt == "unsat":
+                v = False
+            else:
+                if rt == "unknown":
+                    self.stats.feas_unknown += 1
+                self.stats.feas_checks += 1
+                rf = self._check(z3.Not(cond))
+                if rf == "unknown":
+                    self.stats.feas_unknown += 1
+                if rf != "unsat":
+                    self.alternatives.append(
+                        tuple(self.decisions) + (("b", False),))
+                v = True
         self.decisions.append(("b", v))
         self.add(cond if v else z3.Not(cond))
+        if self.formal_cache:
+            self._remember(cond, v)
         return v
+
+    # -- formal decision cache ---------------------------------------------
+    _SIGNS = {z3.Z3_OP_LT: "-", z3.Z3_OP_LE: "-0", z3.Z3_OP_GT: "+",
+              z3.Z3_OP_GE: "0+", z3.Z3_OP_EQ: "0", z3.Z3_OP_DISTINCT: "-+"}
+
+    def _atom(self, cond):
+        """(difference term d, set of signs of d for which cond holds) for
+        an arithmetic comparison, else None"""
+        neg = False
+        c = cond
+        while z3.is_not(c):
+            neg = not neg
+            c = c.children()[0]
+        k = c.decl().kind()
+        ch = c.children()
+        if k not in self._SIGNS or len(ch) != 2 or not z3.is_arith(ch[0]) \
+                or ch[0].sort() != z3.RealSort():
+            return None
+        signs = set(self._SIGNS[k])
+        if neg:
+            signs = set("-0+") - signs
+        return ch[0] - ch[1], signs
+
+    def _formal_decide(self, cond):
+        a = self._atom(cond)
+        if a is None:
+            return None
+        d, want = a
+        from vf.zdiff import formally_equal
+        for dp, have in self.sign_cache:
+            flip = None
+            if formally_equal(d, dp):
+                flip = False
+            elif formally_equal(d, -dp):
+                flip = True
+            if flip is None:
+                continue
+            h = have if not flip else set({"-": "+", "+": "-", "0": "0"}[x]
+                                          for x in have)
+            if h <= want:
+                return True
+            if not (h & want):
+                return False
+        return None
+
+    def _remember(self, cond, v):
+        a = self._atom(cond)
+        if a is None:
+            return
+        d, signs = a
+        self.sign_cache.append((d, signs if v else set("-0+") - signs))
 
     def concretize(self, term, candidates=None):
         """fork over the feasible concrete values of an Int term"""
@@ -852,6 +916,12 @@ class Ctx(object):
         key = t.get_id()
         if key in self.sqrt_memo:
             return SReal(self.sqrt_memo[key][1])
+        if self.formal_cache:
+            from vf.zdiff import formally_equal
+            for (tp, yp) in list(self.sqrt_memo.values()):
+                if formally_equal(t, tp):
+                    self.sqrt_memo[key] = (t, yp)
+                    return SReal(yp)
         for cand, sq in self.root_defs:
             # registered root with its defining square (cand >= 0 and
             # cand*cand == sq are in the path condition): formal identity
@@ -934,6 +1004,16 @@ class Ctx(object):
             n = _num(d)
             if n is not None and n == 0:
                 continue
+            fresh = [(y, t) for (t, y) in self.sqrt_memo.values()
+                     if z3.is_const(y) and y.decl().name().startswith(
+                         "sqrt!")]
+            if fresh:
+                from vf.zdiff import reduce_mod_roots
+                try:
+                    if reduce_mod_roots(d, fresh):
+                        continue
+                except Exception:
+                    pass
             residual.append(d != 0)
         if not residual:
             self.stats.solver_s += time.time() - t0
